@@ -5,8 +5,8 @@
 From Coq Require Import String List NArith ZArith Bool Permutation.
 Import ListNotations.
 Require Import Verif.Export.OasTypes Verif.Export.OasExport Verif.Export.OasCurrent Verif.Export.GoMapProps
-               Verif.Export.OasExportProps Verif.Export.OasParamProps Verif.Export.SwExport Verif.Export.SwExportProps
-               Verif.Export.SwRoundTrip Verif.Gen.ExportTables.
+               Verif.Export.OasExportProps Verif.Export.OasParamProps Verif.Export.OasKindProps Verif.Export.SwExport
+               Verif.Export.SwExportProps Verif.Export.SwRoundTrip Verif.Gen.ExportTables.
 Require Verif.Foreign.NameEscape Verif.Foreign.ImportSpec Verif.Foreign.ImportRun.
 
 (* ---- obligations against the source (break when an arm of exportType, the rule filling `required`, the assignment
@@ -23,11 +23,22 @@ Theorem C12_translator_classified_everything : unknown = [].
 Proof. exact translator_classified_everything. Qed.
 Print Assumptions C12_translator_classified_everything.
 
+(* MapType: the kind string every arm of its type switch assigns (the constants map_type writes), no arm for Type_OneOf_;
+   the `?` of a reference attribute of a !table is not copied (what map_type does with STabRef) *)
+Theorem C12_maptype_current : maptype_of_source = maptype_fixed /\ tabref_keeps_optional_of_source = false.
+Proof. exact maptype_current. Qed.
+Print Assumptions C12_maptype_current.
+
 (* ---- completeness, types (full, for every application with duplicate-free maps, any iteration order): every type is
    a schema that `presents` it: JSON type and format of a primitive, array with items also when optional, $ref target,
-   every field a property and no other, required = exactly the non-optional fields, enum = exactly the item names *)
+   every field a property and no other, required = exactly the non-optional fields, enum = exactly the item names.
+   Round 3: `presents` now also speaks of !table (as !type: every attribute a property, required = the non-optional
+   ones, a reference attribute a $ref to the table / type it names) and of json_map_key types (every field a property and
+   no other); a !union is left unconstrained here - see C12_export_complete_types_strict_refuted.  New hypothesis
+   tabrefs_plain t (trivially true of every type of the earlier rounds): no table inside t has an OPTIONAL reference
+   attribute - MapType does not copy the `?` of such an attribute, see C12_export_table_optional_ref_refuted *)
 Theorem C12_export_complete_types : forall o a d, perm_oracle o -> wf_app a -> export3_with fixed3 o a = Ok d ->
-  forall n t, In (n,t) (a_types a) -> exists s, mget n (d_schemas d) = Some s /\ presents t s.
+  forall n t, In (n,t) (a_types a) -> tabrefs_plain t -> exists s, mget n (d_schemas d) = Some s /\ presents t s.
 Proof. exact export_complete_types. Qed.
 Print Assumptions C12_export_complete_types.
 
@@ -44,6 +55,66 @@ Proof.
   eexists. split; [vm_compute; reflexivity|reflexivity].
 Qed.
 
+(* non-vacuity, round 3: a !table with an optional reference attribute and a json_map_key type *)
+Example C12_complete_kinds_nonvacuous :
+  let a := {| a_name := 1; a_n200 := 2;
+              a_types := [(3, SRel false [(5, STabRef false 1 3); (6, SPrim false "int"); (7, SPrim true "string")]);
+                          (4, STuple false true [(6, SPrim false "string"); (7, SRef false {| r_path := [3%N]; r_app := None; r_ctx := Some 1%N |})])];
+              a_endpoints := [] |}%N in
+  wf_app a /\ Forall (fun kv => tabrefs_plain (snd kv)) (a_types a) /\ exists d, export3_with fixed3 (@rev N) a = Ok d /\
+    d_schemas d = [(3%N, Sch 0%N "object" "" None [(5%N, Sch 3%N "" "" None [] [] []); (6%N, Sch 0%N "integer" "int64" None [] [] []);
+                                                  (7%N, Sch 0%N "string" "" None [] [] [])] [5%N; 6%N] []);
+                   (4%N, Sch 0%N "object" "" None [(6%N, Sch 0%N "string" "" None [] [] []); (7%N, Sch 3%N "" "" None [] [] [])] [] [])].
+Proof.
+  split; [unfold wf_app; cbn; repeat split; repeat constructor; cbn; intuition discriminate|].
+  split; [repeat constructor|].
+  eexists. split; [vm_compute; reflexivity|reflexivity].
+Qed.
+
+(* REFUTED for a table with an optional reference attribute (`!table Ord: cust <: Cust.cid?`): the attribute is listed in
+   `required` - MapType builds &Type{Type: "ref", Reference: ..} for it without copying Optional (pinned by
+   TestMapPetStoreToSimpleTypes), and since repair C12-6 exportType computes `required` from that flag *)
+Theorem C12_export_table_optional_ref_refuted : exists o a d n t, perm_oracle o /\ wf_app a /\ export3_with fixed3 o a = Ok d /\
+  In (n,t) (a_types a) /\ forall s, mget n (d_schemas d) = Some s -> ~ presents t s.
+Proof. exact export_table_optional_ref_refuted. Qed.
+Print Assumptions C12_export_table_optional_ref_refuted.
+
+(* ---- !union (round 3): the schema of a union is the empty schema whatever its alternatives (full, a fact about the code as
+   it is); so completeness in the strict reading - the schema of a union at least carries a kind or a reference - is REFUTED;
+   C12_export_complete_types above is the partial that holds *)
+Theorem C12_export_union_is_empty_schema : forall o op alts, export_type fixed3 o (map_type o (SUnion op alts)) = empty_schema.
+Proof. exact export_union_is_empty_schema. Qed.
+Print Assumptions C12_export_union_is_empty_schema.
+
+Theorem C12_export_complete_types_strict_refuted : exists o a d n t, perm_oracle o /\ wf_app a /\ export3_with fixed3 o a = Ok d /\
+  In (n,t) (a_types a) /\ forall s, mget n (d_schemas d) = Some s -> ~ presents_strict t s.
+Proof. exact export_complete_types_strict_refuted. Qed.
+Print Assumptions C12_export_complete_types_strict_refuted.
+
+(* ---- !table as the tree was found (no arm in exportType): every table was the empty schema *)
+Theorem C12_export_table_found_empty : forall o op fields, export_type found3 o (map_type o (SRel op fields)) = empty_schema.
+Proof. exact export_table_found_empty. Qed.
+Print Assumptions C12_export_table_found_empty.
+
+(* ---- well-formed, references (round 3; partial): every $ref inside a component schema names a component schema of the
+   same document, for every application all of whose references - read the way GetRefDetails and convertTableRef read
+   them - name one of its types (closed_app), any iteration order.  REFUTED without that hypothesis by a field whose type
+   lives in another application and by the reference the parser writes for a nested (in-place) type. *)
+Theorem C12_export_refs_resolve : forall o a d, perm_oracle o -> wf_app a -> closed_app a -> export3_with fixed3 o a = Ok d ->
+  forall n s x, In (n,s) (d_schemas d) -> In x (schema_refs s) -> In x (map fst (d_schemas d)).
+Proof. exact export_refs_resolve. Qed.
+Print Assumptions C12_export_refs_resolve.
+
+Example C12_refs_resolve_nonvacuous : wf_app closed_example /\ closed_app closed_example /\
+  exists d, export3_with fixed3 (@rev N) closed_example = Ok d /\
+    d_schemas d = [(3%N, Sch 0%N "object" "" None [(5%N, Sch 0%N "array" "" (Some (Sch 3%N "" "" None [] [] [])) [] [] [])] [] []);
+                   (4%N, Sch 0%N "object" "" None [(5%N, Sch 3%N "" "" None [] [] []); (6%N, Sch 0%N "integer" "int64" None [] [] [])] [5%N; 6%N] [])].
+Proof. exact closed_example_ok. Qed.
+
+Theorem C12_export_refs_resolve_refuted : dangling cross_app /\ dangling nested_app.
+Proof. exact export_refs_resolve_refuted. Qed.
+Print Assumptions C12_export_refs_resolve_refuted.
+
 (* ---- completeness, endpoints: export does not fail when every method is an OpenAPI method, and every endpoint is the
    operation under its path and method ... *)
 Theorem C12_export_complete_endpoints : forall o a, perm_oracle o -> wf_app a ->
@@ -58,23 +129,25 @@ Print Assumptions C12_export_complete_endpoints.
    its location, required exactly when the type is not optional, and the schema of its type; its request body is the one
    ~body parameter; every return statement is the response under its status key with the schema of its payload type.
    Together: C12_export_complete_params (full for endpoints with distinct parameter names, one body parameter,
-   distinct response names and status keys - each hypothesis excludes a collision in which the code keeps one writer). *)
+   distinct response names and status keys - each hypothesis excludes a collision in which the code keeps one writer).
+   plain_opt (round 3): the parameter's type is not itself an optional reference attribute of a table (STabRef true),
+   the one constructor whose `?` MapType drops; the parser never builds a parameter of that shape. *)
 Theorem C12_export_complete_params : forall a n e, NoDup (param_names e) ->
   let op := export_operation fixed3 ido (snd (build_ep fixed3 ido a (n,e))) in
-  (forall p, In p (e_url e) ->
+  (forall p, In p (e_url e) -> plain_opt (q_ty p) ->
      In {| op_name := q_name p; op_in := "path"; op_required := negb (sty_opt (q_ty p));
            op_schema := export_type fixed3 ido (map_type ido (q_ty p)) |} (o_params op)) /\
-  (forall p, In p (e_query e) ->
+  (forall p, In p (e_query e) -> plain_opt (q_ty p) ->
      In {| op_name := q_name p; op_in := "query"; op_required := negb (sty_opt (q_ty p));
            op_schema := export_type fixed3 ido (map_type ido (q_ty p)) |} (o_params op)) /\
-  (forall p, In p (e_params e) -> sp_body p = false ->
+  (forall p, In p (e_params e) -> sp_body p = false -> plain_opt (sp_ty p) ->
      In {| op_name := sp_name p; op_in := "header"; op_required := negb (sty_opt (sp_ty p));
            op_schema := export_type fixed3 ido (map_type ido (sp_ty p)) |} (o_params op)).
 Proof. exact export_complete_params. Qed.
 Print Assumptions C12_export_complete_params.
 
 Theorem C12_export_complete_body : forall a n e p, NoDup (param_names e) ->
-  In p (e_params e) -> sp_body p = true -> (forall q, In q (e_params e) -> sp_body q = true -> q = p) ->
+  In p (e_params e) -> sp_body p = true -> (forall q, In q (e_params e) -> sp_body q = true -> q = p) -> plain_opt (sp_ty p) ->
   o_body (export_operation fixed3 ido (snd (build_ep fixed3 ido a (n,e)))) =
     Some {| ob_required := negb (sty_opt (sp_ty p)); ob_schema := Some (export_type fixed3 ido (map_type ido (sp_ty p))) |}.
 Proof. exact export_complete_body. Qed.
